@@ -89,10 +89,33 @@ PROPS["C10"] = dict(
     suites=[dict(name="storemem", mod="core", family="storemem", corr="Corr.CorrStore", check="check10_mem", shard=50),
             dict(name="storesqlitefile", mod="core", family="storesqlitefile", corr="Corr.CorrStore", check="check10_sq", shard=20,
                  env={"VERIF_TMP": "/verif/.build/tmp"}),
-            dict(name="storesqlitemem", mod="core", family="storesqlitemem", corr="Corr.CorrStore", check="check10_sq", shard=20)],
-    level_text="TODO",
-    level_note="TODO",
-    rule="TODO",
+            dict(name="storesqlitemem", mod="core", family="storesqlitemem", corr="Corr.CorrStore", check="check10_sq", shard=20),
+            dict(name="storeds", mod="core", family="storeds", corr="Corr.CorrStore", check="check10_ds", shard=20)],
+    level_text="Proved in Coq, for every state reachable by appends and every position/limit: MemoryStore offsets are the "
+               "zero-padded counter and increase lexicographically (digits_lex, counter < 10^20); Read(o,n) from oldest or "
+               "any issued offset returns exactly the first n (all if n<=0) later events and a next offset denoting the "
+               "position after them; ReadStream equals Read; any chain of reads over a store meeting that read "
+               "specification returns a gap-free, repeat-free segment and an empty read means the end (generic chain "
+               "theorem, instantiated for memory and SQLite); SQLite positions strictly increase numerically, never "
+               "repeat, and decimal offsets round-trip (parse . format = id up to 2^63-1); saved subscription offsets "
+               "are returned per id; operations on one store value leave the other unchanged. Refuted by computation "
+               "(known findings): SQLite offsets are not lexicographic at 9->10; the durable-streams store breaks the "
+               "read/next/event-offset clauses (three witnesses). Each store model is tied to the code by differential "
+               "runs of random Append/Read/ReadStream/SaveOffset/LoadOffset histories on two separately created stores; "
+               "an independent oracle (also in Coq) judges every observed history against the property.",
+    level_note="Trusted: Coq kernel + vm_compute; hand-written models of MemoryStore, SQLiteStore (five SQL statements with "
+               "SQL semantics; AUTOINCREMENT) and the durable-streams store over the in-memory server; payload "
+               "identity (type, canonical JSON, instant) is matched by the harness, the models treat payloads as "
+               "opaque ids; strconv/fmt are modelled by dec/parse_int/pad; saving the empty offset on SQLite returns "
+               "\"0\" (same position) and is excluded from generation; harness and printer.",
+    rule="cases = seeded random histories (8-38 ops, thorough up to 88) of Append/Read/ReadStream/SaveOffset/LoadOffset on two "
+         "separately created stores of the same kind (memory; SQLite file; SQLite :memory:; durable-streams over an "
+         "in-process server with 1/2/3/5/unlimited messages per chunk), limits from {-1,0,1,2,3,n-1,n,n+1,100}, resume points "
+         "from every returned next/event offset plus never-issued offsets, payloads with unicode types, nested JSON, "
+         "timestamps in UTC/Local/fixed zones incl. unusual zone names, years 1..9999, nanoseconds; a directed case "
+         "crosses 9->10->12 appends and chains reads with limits 1,2,5,0; non-trivial = some read hit its limit or "
+         "resumed from a non-empty offset; distinct = distinct operation history",
+    assumptions=["SQLite executes each prepared statement with SQL semantics", "the durable-streams server used is the in-memory reference storage"],
 )
 
 NOT_CLAIMED = {p: "check not built yet in this session (work in progress; planned per DESIGN.md section 6)" for p in
